@@ -534,20 +534,24 @@ def judge_prof(ctx, vec, case, res, ref):
                 raise Machinery('avg_T_derived missing from compute_derived_trace output')
             exp_tr = [T0 + TA * float(frac(q)) for q in vec['v']]
             ok = d['trace'] is not None and len(d['trace']) == n and all(near(g, e) for g, e in zip(d['trace'], exp_tr))
-            ctx.verdict('derived_trace_in_sample_order', ok, cls=dcls,
-                        detail='rank %d/%d trace %r expected %r (weights %s)' % (r, nr, d['trace'], exp_tr, [float(x) for x in ws]), vector=info)
+            det = 'rank %d/%d trace %r expected %r (weights %s)' % (r, nr, d['trace'], exp_tr, [float(x) for x in ws])
+            mu = out['derived'].get('mu_derived')
+            rmu = ref['derived'].get('mu_derived') if ref is not None else None
+            if ok and mu is not None and rmu is not None:
+                # second derived parameter (depends on the H2O abundance of the sample): against the one-rank run
+                if not (len(mu['trace']) == n and all(near(g, e) for g, e in zip(mu['trace'], rmu['trace']))):
+                    ok, det = False, 'rank %d/%d mu trace %r, single-process run %r' % (r, nr, mu['trace'], rmu['trace'])
+            ctx.verdict('derived_trace_in_sample_order', ok, cls=dcls, detail=det, vector=info)
             em = T0 + TA * float(frac(vec['mean']))
             okm = near(d['mean'], em)
             det = 'rank %d/%d mean %r expected %r' % (r, nr, d['mean'], em)
             if okm and ref is not None:
-                rd = ref['derived']['avg_T_derived']
-                for k in ('value', 'sigma_m', 'sigma_p'):
-                    if not near(d[k], rd[k], 1.0):
-                        okm, det = False, 'rank %d/%d %s %r, single-process run %r' % (r, nr, k, d[k], rd[k])
-                mu, rmu = out['derived'].get('mu_derived'), ref['derived'].get('mu_derived')
-                if mu is not None and rmu is not None:
-                    if not (len(mu['trace']) == n and all(near(g, e) for g, e in zip(mu['trace'], rmu['trace'])) and near(mu['mean'], rmu['mean'])):
-                        okm, det = False, 'rank %d/%d mu trace/mean differ from the single-process run' % (r, nr)
+                for name, dd, rd in (('avg_T', d, ref['derived']['avg_T_derived']), ('mu', mu, rmu)):
+                    if dd is None or rd is None:
+                        continue
+                    for k in ('mean', 'value', 'sigma_m', 'sigma_p'):
+                        if not near(dd[k], rd[k], 1.0):
+                            okm, det = False, 'rank %d/%d %s %s %r, single-process run %r' % (r, nr, name, k, dd[k], rd[k])
             ctx.verdict('derived_summaries_equal_serial', okm, cls=dcls, detail=det, vector=info)
 
 
@@ -848,11 +852,17 @@ def replay(ctx, violations):
                 validate_events(ctx, [(case, res[1])], 'replay')
             print('replayed run tid=%s on %d ranks: %s' % (case.get('tid'), nr,
                   {k: res[1][0].get(k) for k in ('var', 'mean', 'std', 'derived') if k in res[1][0]}))
-            if vec is not None and case['kind'] == 'ov' and vec.get('var') is not None:
-                full = dict(nr=nr, n=len(case['v']), v=case['v'], w=case['w'], mean=vec['mean'], var=vec['var'],
-                            acc=None)
-                c2 = dict(case, rr=0)
-                judge_ov(ctx, full, c2, res)
+            if vec is None or case.get('tid', 0) >= 900000:
+                continue
+            full = dict(nr=nr, n=len(case['v']), v=case['v'], w=case['w'], mean=vec.get('mean'), var=vec.get('var'), acc=None)
+            if case['kind'] == 'ov' and vec.get('var') is not None:
+                judge_ov(ctx, full, dict(case, rr=0), res)
+            elif case['kind'] == 'prof':
+                ref = None
+                if case.get('derived') and nr > 1:
+                    one = runner.run_batch(1, [dict(case, nr=1, log=False)])[0]
+                    ref = one[1][0] if one[0] == 'ok' else None
+                judge_prof(ctx, full, case, res, ref)
     finally:
         runner.close()
         fx_mpi.close_all()
